@@ -246,4 +246,182 @@ theorem nested_err (n : Nat) (ih : AllSpec n) (ihe : ErrSpec n) (f : Nat) (st : 
         have := ihe.run b s1 s2 _ hw1 hrun rfl rfl c4.symm hm
         exact this.pre (TExt.same c6 c7) c5 c4
 
+/-! ## `evalCallExpr` -/
+
+theorem runGen_err {α} (g : G α) (s s' : St) (e : Fault) (h : (runGen g).run s = (.error e, s')) : s' = s := by
+  rw [run_runGen] at h
+  split at h
+  · cases h
+  · cases h; rfl
+
+/-- the restore of a nested evaluation that came back with the scope stack and the set-aside
+stacks of the state captured -/
+theorem restore_lin (s s2 : St) (hl : s2.linear = s.linear) (hs : s2.suspended = s.suspended) :
+    (restoreSt (captureOf s) s2).linear = s.linear ∧ (restoreSt (captureOf s) s2).suspended = s.suspended := by
+  have hla : linAt (captureOf s) s2 = s2.linear := by
+    unfold linAt captureOf
+    simp only [hs, Nat.lt_irrefl, gt_iff_lt, if_false]
+  have hsa : suspAt (captureOf s) s2 = s.suspended := by
+    unfold suspAt captureOf
+    simp only [hs, Nat.lt_irrefl, gt_iff_lt, if_false]
+  refine ⟨?_, hsa⟩
+  show truncate (linAt (captureOf s) s2) s.linear.length = s.linear
+  rw [hla, hl]; exact truncate_self _
+
+/-- … and of a lazy force, whose nested evaluation ran with the live stack set aside -/
+theorem restore_lin_force (s s2 : St) (hs : s2.suspended = s.linear :: s.suspended) :
+    (restoreSt (captureOf s) s2).linear = s.linear ∧ (restoreSt (captureOf s) s2).suspended = s.suspended := by
+  have hgt : s2.suspended.length > (captureOf s).susp := by
+    show s2.suspended.length > s.suspended.length; rw [hs]; simp
+  have hla : linAt (captureOf s) s2 = s.linear := by
+    unfold linAt
+    rw [if_pos hgt, hs]
+    show (s.linear :: s.suspended).getD ((s.linear :: s.suspended).length - s.suspended.length - 1) [] = s.linear
+    simp
+  have hsa : suspAt (captureOf s) s2 = s.suspended := by
+    unfold suspAt
+    rw [if_pos hgt, hs]
+    show (s.linear :: s.suspended).drop ((s.linear :: s.suspended).length - s.suspended.length) = s.suspended
+    simp
+  refine ⟨?_, hsa⟩
+  show truncate (linAt (captureOf s) s2) s.linear.length = s.linear
+  rw [hla]; exact truncate_self _
+
+theorem thunk_err (n : Nat) (ihe : ErrSpec n) (name : String) (s1 s' : St) (code : List Instr) (cl : List (Option Nat))
+    (par : Option Nat) (hw1 : WF s1) (hc : AllOK (szS s1) code)
+    (hv : ∃ ann, verify { kind := .fn, nformals := 0, varargs := false, nfixed := 0, code := B s1.loops (code ++ [Instr.ret]) } ann = true)
+    (st : CtlState) (lin : List (Option Nat)) (susp : List (List (Option Nat)))
+    (hex : (nested n s1.fns.length st).run (thunkSt s1 (thunkObj name code cl par) lin susp) = (.error .err, s')) :
+    ∃ s2, s' = restoreSt st s2 ∧ WFd s2 ∧ TExt s1 s2 ∧ s2.suspended = susp ∧ s2.linear = lin := by
+  obtain ⟨hw2, hg2⟩ := wf_mkThunk name code cl par hw1 hc hv
+  have hw3 : WF (thunkSt s1 (thunkObj name code cl par) lin susp) :=
+    hw2.mk' (TExt.same rfl rfl) (fun j h1 h2 => absurd h2 (Nat.not_lt.mpr h1)) hw2.loopstack hw2.scopes hw2.heap hw2.lazies hw2.data
+  have hfo : fnOf (thunkSt s1 (thunkObj name code cl par) lin susp) s1.fns.length = thunkObj name code cl par := by
+    show (s1.fns ++ [_]).getD s1.fns.length {} = _
+    rw [List.getD_eq_getElem?_getD, List.getElem?_append_right (Nat.le_refl _), Nat.sub_self]
+    rfl
+  obtain ⟨s2, h1, h2⟩ := ihe.nested s1.fns.length st _ s' hw3 hw1.two (by simp [thunkSt]) (by rw [hfo]; rfl) rfl hex
+  exact ⟨s2, h1, h2.tab,
+    (show TExt s1 (thunkSt s1 (thunkObj name code cl par) lin susp) from ⟨⟨_, rfl⟩, ⟨[], by simp [thunkSt]⟩⟩).trans h2.ext, h2.susp, h2.lin⟩
+
+theorem eval_err (n : Nat) (ih : AllSpec n) (ihe : ErrSpec n) (e : Expr) (s s' : St) (hw : WF s) (hok : okL e = true)
+    (hex : (evalCallExpr (n + 1) e).run s = (.error .err, s')) : ErrOut s s' := by
+  unfold VM.evalCallExpr at hex
+  split at hex
+  · rename_i x
+    rw [run_bind, run_get] at hex
+    dsimp only at hex
+    split at hex
+    · simp only [run_pure] at hex; cases hex
+    · cases hex; exact ErrOut.refl hw
+  · rw [run_bind, run_get] at hex
+    dsimp only at hex
+    rw [run_bind] at hex
+    rcases hg : (runGen (compile (isFnScope s) {} e)).run s with ⟨r, s1⟩
+    rw [hg] at hex
+    cases r with
+    | error er =>
+      have := runGen_err _ s s1 er hg
+      subst this
+      cases hex
+      exact ErrOut.refl hw
+    | ok ct =>
+      obtain ⟨code, t⟩ := ct
+      obtain ⟨hw1, he1, g1, g2, g3, g4, g5, g6, g7, g8, g9, hcode, hver⟩ := wf_runGen (isFnScope s) e code t hw hok hg
+      dsimp only at hex
+      split at hex
+      · simp only [run_pure] at hex; cases hex
+      · rw [run_bind, run_capture] at hex
+        dsimp only at hex
+        rw [run_bind, run_get] at hex
+        dsimp only at hex
+        rw [run_bind, run_mkFunction] at hex
+        dsimp only at hex
+        rw [run_bind, run_modify] at hex
+        dsimp only at hex
+        obtain ⟨s2, h1, hw2, he2, su2, l2⟩ :=
+          thunk_err n ihe "callExprEval" s1 s' code _ _ hw1 hcode hver (captureOf s1) s1.linear s1.suspended hex
+        obtain ⟨r1, r2⟩ := restore_lin s1 s2 l2 su2
+        rw [h1]
+        exact ⟨hw2.restore _, he1.trans (he2.trans (TExt.same rfl rfl)), r2.trans g6, r1.trans g2⟩
+
+/-! ## `prepareArgs` -/
+
+theorem prep_lazy_any (e : Expr) (k : M Unit) (s s' : St) (r : Except Fault Unit) (hw : WF s) (hok : okL e = true)
+    (hex : (do
+      let t ← get
+      set { t with lazies := t.lazies ++ [({ e, stack := t.linear, curfunc := t.curfunc, value := none } : LazyObj)] }
+      pushData (.lazy t.lazies.length)
+      k : M Unit).run s = (r, s')) :
+    ∃ s1, WF s1 ∧ TExt s s1 ∧ s1.linear = s.linear ∧ s1.suspended = s.suspended ∧ k.run s1 = (r, s') := by
+  rw [run_bind, run_get] at hex
+  dsimp only at hex
+  rw [run_bind, run_set] at hex
+  dsimp only at hex
+  rw [run_bind, run_pushData] at hex
+  dsimp only at hex
+  refine ⟨{ s with lazies := s.lazies ++ [({ e, stack := s.linear, curfunc := s.curfunc, value := none } : LazyObj)],
+                   data := some (.lazy s.lazies.length) :: s.data }, ?_, TExt.same rfl rfl, rfl, rfl, hex⟩
+  refine hw.grow (TExt.same rfl rfl) (fun j h1 h2 => absurd h2 (Nat.not_lt.mpr h1)) rfl rfl rfl ?_ ?_
+  · intro lz hlz
+    rcases List.mem_append.mp hlz with hm | hm
+    · left; exact hm
+    · right
+      simp at hm; subst hm
+      exact ⟨hok, fun v hv => by cases hv⟩
+  · intro c hcm
+    rcases List.mem_cons.mp hcm with rfl | hcm
+    · right; trivial
+    · left; exact hcm
+
+theorem prep_eval_err (n : Nat) (ih : AllSpec n) (ihe : ErrSpec n) (e : Expr) (k : M Unit) (s s' : St) (hw : WF s) (hok : okL e = true)
+    (hex : (do
+      let v ← evalCallExpr n e
+      pushData v
+      k : M Unit).run s = (.error .err, s')) :
+    ErrOut s s' ∨ ∃ s1, WF s1 ∧ TExt s s1 ∧ s1.linear = s.linear ∧ s1.suspended = s.suspended ∧ k.run s1 = (.error .err, s') := by
+  rw [run_bind] at hex
+  rcases hev : (evalCallExpr n e).run s with ⟨r, s0⟩
+  rw [hev] at hex
+  cases r with
+  | error er =>
+    cases hex
+    exact Or.inl (ihe.eval e s s' hw hok hev)
+  | ok v =>
+    dsimp only at hex
+    rw [run_bind, run_pushData] at hex
+    dsimp only at hex
+    obtain ⟨hk, hv⟩ := ih.eval e s s0 v hw hok hev
+    refine Or.inr ⟨{ s0 with data := some v :: s0.data }, ?_, hk.ext.trans (TExt.same rfl rfl), hk.same.linear, hk.same.susp, hex⟩
+    refine hk.wf.setData _ _ ?_
+    intro c hcm
+    rcases List.mem_cons.mp hcm with rfl | hcm
+    · exact cellOK_of_vok hv
+    · exact hk.wf.data c hcm
+
+theorem prep_err (n : Nat) (ih : AllSpec n) (ihe : ErrSpec n) (args : List Expr) (f : Option FnObj) (i : Nat) (s s' : St) (hw : WF s)
+    (hok : okLs args = true) (hex : (prepareArgs (n + 1) f i args).run s = (.error .err, s')) : ErrOut s s' := by
+  cases args with
+  | nil => simp only [VM.prepareArgs, run_pure] at hex; cases hex
+  | cons e es =>
+    simp only [okLs, Bool.and_eq_true] at hok
+    unfold VM.prepareArgs at hex
+    have key : ErrOut s s' ∨ ∃ s1, WF s1 ∧ TExt s s1 ∧ s1.linear = s.linear ∧ s1.suspended = s.suspended ∧
+        (prepareArgs n f (i + 1) es).run s1 = (.error .err, s') := by
+      cases f with
+      | none =>
+        dsimp only at hex
+        simp only [Bool.false_eq_true, if_false] at hex
+        exact prep_eval_err n ih ihe e _ s s' hw hok.1 hex
+      | some fo =>
+        dsimp only at hex
+        by_cases hl : (!fo.user && fo.hasLazyFormals && fo.isLazyCallArg i) = true
+        · simp only [hl, if_true] at hex
+          exact Or.inr (prep_lazy_any e _ s s' _ hw hok.1 hex)
+        · simp only [hl, if_false] at hex
+          exact prep_eval_err n ih ihe e _ s s' hw hok.1 hex
+    rcases key with h | ⟨s1, hw1, he1, l1, su1, hrest⟩
+    · exact h
+    · exact (ihe.prep f (i + 1) es s1 s' hw1 hok.2 hrest).pre he1 su1 l1
+
 end ZygoVerif.RunInv
